@@ -12,6 +12,7 @@ def handle (line : String) : String :=
   | "scan" :: f :: _ :: entries => scanLine (unhex f) entries
   | "recreateio" :: c :: rs :: ws :: _ :: entries => recreateIoLine (unhex c) rs ws entries
   | ["library", f] => libraryLine (unhex f)
+  | ["libraryfull", f] => libraryFullLine (unhex f)
   | ["estimate", d] => estimateLine (unhex d)
   | ["estimatefull", d] => estimateFullLine (unhex d)
   | ["public", d] => publicLine (unhex d)
